@@ -31,8 +31,8 @@ CLAIMS["C07"] = dict(
           "(D2) the jax.custom_vjp packing/unpacking contract incl. residual roles and parameter restoration before any "
           "Hessian/VJP use; (D3) slot-index agreement of param_index_update, Objective's jvp/vjp closures, the returned "
           "Params tuple and the MechanicsInverse vjp wrappers; (D4) the adjoint sign convention (CG minimises v.z+1/2 z.H z, "
-          "lam used unnegated); (D5) the adjoint function-space constructor agrees with the ordinary one modulo "
-          "mesh.coords->coords. Numerical equality with dense IFT derivatives is NOT decided."),
+          "lam used unnegated, the adjoint solve is run with an infinite trust-region radius); (D5) the adjoint function-space "
+          "constructor agrees statement by statement with the ordinary one modulo mesh.coords->coords (unification modulo names of locals). Numerical equality with dense IFT derivatives is NOT decided."),
     design_ref="DESIGN.md section 4, C07",
     technique="static analysis: call-graph link checking, custom_vjp protocol checking, slot-table agreement, sibling comparison over the AST")
 
@@ -45,7 +45,8 @@ CLAIMS["C01"] = dict(
           "objective.value(x+d) - o <= 0 (sign proof: acceptance => ratio >= c >= 0, denominator >= 0 on each path where a "
           "ratio definition is used, numerator = -(value(x+d) - o) with o fresh, accepted point = x + that d); (D3) accepted "
           "iterates are reported and exits return the iterate state or the reported successful point; (D4) a NaN ratio "
-          "rejects the step and shrinks the radius; the settings factory puts every parameter into the field of the same name. Convergence on convex problems, uniqueness, and finiteness beyond D4 "
+          "rejects the step and shrinks the radius; the settings factory puts every parameter into the field of the same name; the step-type labels that the inner CG attaches to "
+          "boundary-projected steps are exactly those recognised by is_on_boundary (the radius grows after them and only them). Convergence on convex problems, uniqueness, and finiteness beyond D4 "
           "are trajectory properties and are NOT decided."),
     design_ref="DESIGN.md section 4, C01",
     technique="static analysis: CFG dominators + reaching definitions with branch facts, sign and NaN-polarity abstract domains, homogeneity degree")
@@ -86,7 +87,8 @@ CLAIMS["C19"] = dict(
           "drivers enter with scaling*x0 (bounds scaled alike) and leave with invScaling*result; ScaledObjective and "
           "BoundConstrainedObjective evaluate at invScaling*xBar, start at scaling*x0, store invScaling = 1/scaling, and the "
           "scaled preconditioner is the congruence D^T K D initialised at the unscaled point; (D4) param_index_update table. "
-          "Accuracy of the CG solve and numerical equality of scaled/unscaled solutions are NOT decided."),
+          "Accuracy of the CG solve and numerical equality of scaled/unscaled solutions are NOT decided. In every driver the warm-start increment and the preconditioner update are evaluated at the scaled start point that is handed to the solver."
+          ""),
     design_ref="DESIGN.md section 4, C19",
     technique="static analysis: sign-parity chain over reaching definitions, dominator ordering rules in four sibling drivers, algebraic normal forms for the diagonal change of variables")
 
@@ -114,7 +116,8 @@ CLAIMS["C18"] = dict(
           "specification identity -- min_base: value == min outside the band and min - value == (|x-y|-eps)^2/(4 eps) inside "
           "(hence one-sided, tight to eps/4), symmetric; friction: arms mu t^2/(2 sReg) and mu(t - sReg/2), convexity and "
           "Coulomb-bound certificates -- and C0/C1 agreement holds on every switching surface; max/abs are the mirrored "
-          "wrappers. Rounding within a switch is not modelled (assumes eps > safeTol, sReg > 0, 0 < l < 1/2)."),
+          "wrappers. Rounding within a switch is not modelled (assumes eps > safeTol, sReg > 0, 0 < l < 1/2). The corner distance calls the smoothed minimum mirrored by one sign factor on both arguments and the result, with a width that is non-negative for both signs (sign analysis)."
+          ""),
     design_ref="DESIGN.md section 4, C18",
     technique="static analysis: extraction of piecewise rational functions from the AST, exact rational normal forms, GLUE (C0/C1) identities and certificate identities per cell")
 
@@ -125,7 +128,8 @@ CLAIMS["C15"] = dict(
           "the inertia term of the algorithmic energy is the kinetic density 1/2 rho v.v of (U - U_pred) scaled by the same "
           "1/(beta dt^2) as the corrector (stationarity = f_int + M A_{n+1}), the element Hessian uses the same factor, and "
           "the factory feeds the same Newmark parameters everywhere. Energy conservation, exact rigid translation and the mass "
-          "sum are trajectory/numerical statements and are NOT decided."),
+          "sum are trajectory/numerical statements and are NOT decided. Also decided (structurally, not by identities): every closure of create_dynamics_functions forwards the same (post-projection) gradient transformation, "
+          "and the 2-D mode dispatch selects the hoop-strain transformation exactly for 'axisymmetric' and agrees with the statics factory."),
     design_ref="DESIGN.md section 4, C15",
     technique="static analysis: symbolic execution of straight-line closures into exact rational normal forms; factor/field agreement between sibling functions")
 
@@ -138,7 +142,8 @@ CLAIMS["C20"] = dict(
           "declares exactly the records written before the next header, the CELLS size equals the integers written, "
           "POINT_DATA == POINTS and CELL_DATA == CELL_TYPES == CELLS, every admitted nodal/cell field carries the declared "
           "record count after padding, and the add_* guards admit exactly those counts. The numeric round trip of values and "
-          "whether connectivity ids refer to written points for subset output nodes are NOT decided."),
+          "whether connectivity ids refer to written points for subset output nodes are NOT decided. The padding records produced by default_values have 1 / 3 / 3x3 components for SCALARS / VECTORS / TENSORS in every data-type branch."
+          ""),
     design_ref="DESIGN.md section 4, C20",
     technique="static analysis: effect (who-writes-self.*) analysis with alias tracking over the write() call cone; abstract interpretation of array lengths with symbolic sizes")
 
@@ -199,7 +204,8 @@ CLAIMS["C09"] = dict(
           "the old equivalent plastic strain and the symbolic plastic residual is strictly negative at its lower and strictly "
           "positive at its upper end while yielding, for linear hardening with modulus > 0 and = 0 and old plastic strain > 0 and = 0 "
           "(so the root finder's sign test cannot be decided by round-off), the increment is root - old and the elastic branch adds "
-          "zero; energy, state update and hardening potentials (all hardening laws, with and without rate sensitivity, all "
+          "zero; the dummy flow direction is unreachable on a yielding step for yield strength / shear modulus >= 1e-6 (bound 2 sqrt(c |N|^2) from "
+          "the degeneracy threshold c); energy, state update and hardening potentials (all hardening laws, with and without rate sensitivity, all "
           "kinematics) are dimensionally homogeneous under rescaling of the stress and time units; the residual is d(incremental_potential)/d(eqps) and the root lambda varies exactly that "
           "slot; each kinematics option pairs the energy's strain measure with the state update that uses it. Yield consistency "
           "to tolerance, minimality, idempotence and the size of the degeneracy tolerance are NOT decided."),
@@ -246,7 +252,8 @@ CLAIMS["C16"] = dict(
           "(1-xi)-weighted segment integral reaches the first node and the xi-weighted one the second node of each B segment (tags "
           "propagated through tuple returns, vmap and unpacking to the scatter-add); every argmin over signed edge distances in "
           "Contact.py ranks absolute values. Distances, "
-          "rigid-motion invariance and overlap lengths as numbers are NOT decided."),
+          "rigid-motion invariance and overlap lengths as numbers are NOT decided. cpp_line / cpp / cpp_distance are interpreted on a symbolic edge and point with comparisons decided at one rational sample per region (before / between / beyond the ends x left / on / right of the line): parameter, clamped point and signed distance equal the geometric specification in all 7 regions."
+          ""),
     design_ref="DESIGN.md section 4, C16",
     technique="static analysis: sibling comparison by symbolic evaluation, pairing/clamping rules, tuple-slot tag dataflow, dependency analysis of sample points, integrand-shape rules")
 
